@@ -390,6 +390,42 @@ def run_shard(tier, idx, nshards, rec, known):
         rec.case({'program': progs.show(node), 'mode': case['mode'], 'arg': case['arg'], 'ast': node,
                   'eager': case.get('eager')}, nt, cls,
                  size=progs.size(node))
+    # enumerated first: every key that a selection drops, looked up through the selection (nothing may be evaluated)
+    from ..common import Outcome
+    o0 = Outcome()
+    if idx == 0:
+        keys = ['a', 'b', 'c', 'd']
+        for n in (2, 3, 4):
+            src = {'op': 'map', 'fn': 1, 'in': {'op': 'dict', 'id': 1, 'keys': keys[:n], 'mode': 'pickle'}}
+            forms = [{'k': 'slice', 'a': 1, 'b': None, 'c': None}, {'k': 'slice', 'a': None, 'b': -1, 'c': None},
+                     {'k': 'slice', 'a': None, 'b': None, 'c': 2}, {'k': 'ilist', 'idx': [n - 1], 'as': 'list'},
+                     {'k': 'ilist', 'idx': [0, n - 1], 'as': 'np64'}, {'k': 'keys', 'keys': [keys[0]], 'as': 'list'},
+                     {'k': 'mask', 'bits': [i == 1 for i in range(n)], 'as': 'np'}]
+            for form in forms:
+                for above in (None, 'map', 'copy', 'cache', 'slice'):
+                    node = {'op': 'slice', 'form': form, 'in': src}
+                    if above == 'map':
+                        node = {'op': 'map', 'fn': 2, 'in': node}
+                    elif above == 'copy':
+                        node = {'op': 'copy', 'freeze': False, 'in': node}
+                    elif above == 'cache':
+                        node = {'op': 'cache', 'lazy': True, 'in': node}
+                    elif above == 'slice':
+                        node = {'op': 'slice', 'form': {'k': 'slice', 'a': None, 'b': None, 'c': -1}, 'in': node}
+                    kept = set(ev(node).keys)
+                    for k in keys[:n]:
+                        if k in kept:
+                            continue
+                        case = {'ast': node, 'mode': 'absent-key', 'arg': k}
+                        try:
+                            check(case)
+                        except Violation as v:
+                            if known.match(v.sig):
+                                continue
+                            o0.violation = (case, v.sig, v.detail)
+                            return [o0]
+                        rec.case({'program': progs.show(node), 'mode': 'absent-key', 'arg': k, 'ast': node}, True,
+                                 {'enumerated', 'mode:absent-key'}, size=progs.size(node))
     o1 = drive(one, st_case(), N[tier], rec, known, seed() * 1000 + idx)
     if o1.violation:
         return [o1]
